@@ -4,4 +4,5 @@ Extraction "m.ml" Z.add Z.mul Z.sub Z.div_eucl Z.compare Z.of_nat Z.to_nat Z.opp
   mkVariant open_new allocate reallocate deallocate check_allocation_status clear sync close reopen
   write_op rw_status mmap_all
   find_next_set_bit find_prev_set_bit w_find_next w_find_prev ffs64 reverse64 bits_of_words
-  bm tree lfbkoff lfbklen bmoff bmlen hdrlen bpow fsize crzsum crznum.
+  bm tree lfbkoff lfbklen bmoff bmlen hdrlen bpow fsize crzsum crznum
+  p_bmoff p_bmlen p_crzsum p_crznum hdr_current set_bit_status.
